@@ -2028,6 +2028,10 @@ class AbelianArray(BlockBase):
         # _split = ar.get_lib_fn(backend, "split")
         _reshape = ar.get_lib_fn(backend, "reshape")
 
+        if axis < 0:
+            # handle negative axes (the slicing below needs the position)
+            axis += self.ndim
+
         # get required information from the fused index
         subinfo = self.indices[axis].subinfo
 
